@@ -42,6 +42,11 @@ pub fn run_tx3c(src: &str) -> Result<Vec<u8>, String> {
 /// `extra` = further command-line arguments; `files` = (placeholder, content) pairs written next to the
 /// source, whose path replaces the placeholder in the arguments (env files of profiles)
 pub fn run_tx3c_with(src: &str, extra: &[String], files: &[(String, String)]) -> Result<Vec<u8>, String> {
+    run_tx3c_over(src, extra, files, None)
+}
+
+/// `preexisting`: content already sitting at the output path when the build starts (an older artifact)
+pub fn run_tx3c_over(src: &str, extra: &[String], files: &[(String, String)], preexisting: Option<&[u8]>) -> Result<Vec<u8>, String> {
     let n = SERIAL.fetch_add(1, Ordering::SeqCst);
     let dir = format!("{}/.work", crate::runner::verif_dir());
     let _ = std::fs::create_dir_all(&dir);
@@ -49,6 +54,9 @@ pub fn run_tx3c_with(src: &str, extra: &[String], files: &[(String, String)]) ->
     let srcp = format!("{}.tx3", base);
     let outp = format!("{}.tii", base);
     std::fs::write(&srcp, src).map_err(|e| e.to_string())?;
+    if let Some(old) = preexisting {
+        std::fs::write(&outp, old).map_err(|e| e.to_string())?;
+    }
     let mut extra: Vec<String> = extra.to_vec();
     let mut written = vec![];
     for (k, (placeholder, content)) in files.iter().enumerate() {
@@ -145,6 +153,32 @@ pub fn check_command_line(tape: &[u16], rc: &mut RCase) -> Result<(), Failure> {
             },
         }
     }
+    // a rebuild over an older artifact: the output path already holds a longer, a shorter or an unrelated file
+    if let Some(fresh) = &first {
+        let old: Vec<u8> = match t.pick(3) {
+            0 => {
+                let mut v = fresh.clone();
+                v.extend(std::iter::repeat(b' ').take(1 + t.pick(400)));
+                v.extend_from_slice(b"{\"older\": true}\n");
+                v
+            }
+            1 => fresh[..fresh.len() / 2].to_vec(),
+            _ => b"not a tii file at all, but rather long: ".iter().cycle().take(fresh.len() + 777).copied().collect(),
+        };
+        match run_tx3c_over(&plain, &args, &files, Some(&old)) {
+            Err(e) => return Err(Failure::new("tx3c_fails_over_existing_output", e, rendered())),
+            Ok(bytes) => {
+                if bytes != *fresh {
+                    return Err(Failure::new(
+                        "tii_file_depends_on_what_was_at_the_output_path",
+                        format!("a build into a fresh path wrote {} bytes; the same build over an existing file of {} bytes left {} bytes", fresh.len(), old.len(), bytes.len()),
+                        rendered(),
+                    ));
+                }
+            }
+        }
+        rc.label("rebuild_over_existing_output_judged");
+    }
     rc.label("command_line_judged");
     let lowered: std::collections::BTreeSet<String> = args.iter().map(|a| a.to_lowercase()).collect();
     rc.record(hash64(&format!("{}{:?}{:?}", plain, args, files)), n_prof + n_env >= 2 || lowered.len() < args.len(), rendered);
@@ -219,11 +253,74 @@ pub fn check_case(tape: &[u16], rc: &mut RCase, with_processes: bool) -> Result<
     Ok(())
 }
 
+/// "The same source always produces the same bytes" also after the process has worked on other programs:
+/// 1-3 other sources (valid ones, and ones the analyzer accepts but lowering rejects - taken from C13's
+/// mutations) go through parse / analyze / lower on this thread, then the subject is encoded again.
+pub fn check_after_history(tape: &[u16], rc: &mut RCase) -> Result<(), Failure> {
+    let mut t = Tape::new(tape);
+    let mut feat = Feat::core();
+    feat.withdrawals = true;
+    feat.donation = true;
+    feat.witnesses = true;
+    let subject = Gen::new(&mut t, feat.clone()).generate();
+    let (plain, _) = super::render_pair(&subject, &mut t);
+    let Some(first) = encode_all(&plain) else {
+        rc.label("does_not_lower(not judged)");
+        return Ok(());
+    };
+    let n_hist = 1 + t.pick(3);
+    let mut history: Vec<(String, bool)> = vec![];
+    for _ in 0..n_hist {
+        let other = Gen::new(&mut t, feat.clone()).generate();
+        let src = if t.chance(2, 3) {
+            let kind = t.pick(super::c13::MUTATIONS.len());
+            match super::c13::mutate(&other, kind, &mut t) {
+                Some(p) => crate::gast::print_plain(&p),
+                None => crate::gast::print_plain(&other.prog),
+            }
+        } else {
+            crate::gast::print_plain(&other.prog)
+        };
+        // the outcome of the other program does not matter, only that the front end worked on it;
+        // lowering of every transaction is attempted even after one failed
+        let lowered = crate::util::guard(|| {
+            let Ok(mut ast) = tx3_lang::parsing::parse_string(&src) else { return false };
+            if tx3_lang::analyzing::analyze(&mut ast).errors.len() > 0 {
+                return false;
+            }
+            let mut all = true;
+            for tx in ast.txs.iter() {
+                all &= tx3_lang::lowering::lower(&ast, &tx.name.value).is_ok();
+            }
+            all
+        })
+        .unwrap_or(false);
+        rc.label(if lowered { "history:other_program_lowered" } else { "history:other_program_failed" });
+        history.push((src, lowered));
+    }
+    let again = encode_all(&plain);
+    if again.as_deref() != Some(first.as_str()) {
+        return Err(Failure::new(
+            "encoding_depends_on_earlier_programs",
+            format!(
+                "after {} other program(s) ({} of them failing) the subject encodes to {} ; before: {}",
+                history.len(),
+                history.iter().filter(|h| !h.1).count(),
+                crate::util::trunc(&again.unwrap_or_else(|| "<does not lower any more>".into()), 300),
+                crate::util::trunc(&first, 300)
+            ),
+            json!({"source": plain, "earlier_programs": history.iter().map(|h| h.0.clone()).collect::<Vec<_>>()}),
+        ));
+    }
+    rc.record(hash64(&format!("{}{:?}", plain, history)), history.iter().any(|h| !h.1), || json!({"source": plain, "earlier_programs": history.len()}));
+    Ok(())
+}
+
 pub fn run(tier: Tier, seed: u64) -> Report {
     let mut r = Report::new("C18", tier, seed);
     r.rule = "every repository example that lowers and generated programs weighted towards cardano:: directives with >=2 \
               fields; each encoded 20 times in one process; a sample additionally in 3 fresh child processes and through 3 \
-              runs of the built tx3c (TII file bytes). Phase tx3c_command_lines: generated programs x generated command lines (protocol metadata, forced profiles and per-profile env files, profile names in several spellings), 5 runs each. Oracle: one byte string over all repetitions. distinct = hash(source); \
+              runs of the built tx3c (TII file bytes). Phase after_other_programs: the subject is encoded before and after 1-3 other programs (valid, or accepted-but-not-lowerable) went through the front end on the same thread. Phase tx3c_command_lines: generated programs x generated command lines (protocol metadata, forced profiles and per-profile env files, profile names in several spellings), 5 runs each. Oracle: one byte string over all repetitions. distinct = hash(source); \
               non-trivial = a directive with >=2 fields or >=2 transactions"
         .into();
     r.assumptions = vec!["processes are children of the same binary on this machine".into()];
@@ -236,6 +333,7 @@ pub fn run(tier: Tier, seed: u64) -> Report {
     });
     r.explore("generated_in_process", tier.pick(6_000, 200_000), 500, &|t, rc| check_case(t, rc, false));
     r.explore("generated_cross_process", tier.pick(120, 4_000), 500, &|t, rc| check_case(t, rc, true));
+    r.explore("after_other_programs", tier.pick(3_000, 100_000), 900, &|t, rc| check_after_history(t, rc));
     r.explore("tx3c_command_lines", tier.pick(400, 12_000), 500, &|t, rc| check_command_line(t, rc));
     r
 }
@@ -247,6 +345,8 @@ pub fn replay(phase: &str, tape: &[u16], seed: u64) -> Report {
         let ex = examples();
         let i = tape[3] as usize;
         r.enumerate(phase, 1, &|_, rc| judge(&ex[i].1, &ex[i].0, true, rc).map(|_| ()));
+    } else if phase == "after_other_programs" {
+        r.explore_list(phase, &[tape.to_vec()], &|t, rc| check_after_history(t, rc));
     } else if phase == "tx3c_command_lines" {
         r.explore_list(phase, &[tape.to_vec()], &|t, rc| check_command_line(t, rc));
     } else {
